@@ -272,8 +272,16 @@ class ASL_API Var
 	Var(int x): _type(INT), _i(x){}
 	Var(float x): _type(FLOAT) {_d=x;}
 	Var(unsigned x);
-	Var(long x) : _type(INT), _i((int)x){}
-	Var(unsigned long x) : _type(INT), _i((int)x){}
+	Var(long x) // an int when it fits, else a number (long has 64 bits on LP64 platforms)
+	{
+		if (x == (long)(int)x) { _type = INT; _i = (int)x; }
+		else { _type = NUMBER; _d = (double)x; }
+	}
+	Var(unsigned long x)
+	{
+		if (x < 2147483648u) { _type = INT; _i = (int)x; }
+		else { _type = NUMBER; _d = (double)x; }
+	}
 	Var(Long x);
 	Var(ULong x);
 	Var(bool x);
@@ -344,11 +352,11 @@ class ASL_API Var
 	void operator=(double x);
 	void operator=(int x);
 	void operator=(Long x);
-	void operator=(ULong x) { (*this) = (Long)x; }
+	void operator=(ULong x) { (*this) = Var(x); }
 	void operator=(float x);
 	void operator=(unsigned x);
-	void operator=(long x) { *this = (int)x; }
-	void operator=(unsigned long x) { *this = (unsigned int)x; }
+	void operator=(long x) { *this = Var(x); }
+	void operator=(unsigned long x) { *this = Var(x); }
 	void operator=(bool x);
 	void operator=(const char* x);
 	void operator=(const String& x);
